@@ -60,6 +60,7 @@ EXPECTED_PROBES = [
 _d = None
 ALGS = list(T.ALGS.keys())
 _TSIGCLOCK = OffsetView(VT, 0.0)
+_FIXED_ID = [0x1234]
 
 
 def _set_clock(t):
@@ -84,6 +85,10 @@ def setup():
     _d = dns
     for mod in (dns.renderer, dns.query, dns.asyncquery):
         mod.time = VT
+    # message ids the library draws for itself come from the case, not from the OS
+    import dns.entropy
+
+    dns.entropy.random_16 = lambda: _FIXED_ID[0]
     # the TSIG clock: dns.message reads simulated time plus an epoch offset set per step
     dns.message.time = _TSIGCLOCK
     _set_clock(1_600_000_000.0)
@@ -816,6 +821,7 @@ SCENARIOS = {
 def run_case(case, keep_log=False):
     res = RunResult()
     log = EventLog(keep=keep_log)
+    _FIXED_ID[0] = (case["qid"] * 31 + 7) % 65536
     log.add("case", case["scenario"], case["alg"], len(case["secret"]) // 2, case["keyname"], case["fudge"], case["time"], case["qid"],
             case["skew"], case["identity"], case["structure"], case["nenv"], case["unsigned_mask"], case["envfault"], case["envpos"], case["flipbit"], case["nrr"])
     try:
